@@ -223,11 +223,17 @@ where
 
         if blocks.len() == 1 {
             // Start a single-block read
-            self.card_command(CMD17, start_idx)?;
+            if self.card_command(CMD17, start_idx)? != 0x00 {
+                // The card refused (e.g. address out of range): no data will follow
+                return Err(Error::ReadError);
+            }
             self.read_data(&mut blocks[0].contents)?;
         } else {
             // Start a multi-block read
-            self.card_command(CMD18, start_idx)?;
+            if self.card_command(CMD18, start_idx)? != 0x00 {
+                // The card refused (e.g. address out of range): no data will follow
+                return Err(Error::ReadError);
+            }
             for block in blocks.iter_mut() {
                 self.read_data(&mut block.contents)?;
             }
@@ -251,7 +257,11 @@ where
         };
         if blocks.len() == 1 {
             // Start a single-block write
-            self.card_command(CMD24, start_idx)?;
+            if self.card_command(CMD24, start_idx)? != 0x00 {
+                // The card refused (e.g. address out of range) and is still
+                // listening for commands: it must not be sent the data block
+                return Err(Error::WriteError);
+            }
             self.write_data(DATA_START_BLOCK, &blocks[0].contents)?;
             self.wait_not_busy(Delay::new_write())?;
             if self.card_command(CMD13, 0)? != 0x00 {
@@ -269,7 +279,11 @@ where
             self.wait_not_busy(Delay::new_write())?;
 
             // Start a multi-block write
-            self.card_command(CMD25, start_idx)?;
+            if self.card_command(CMD25, start_idx)? != 0x00 {
+                // The card refused (e.g. address out of range) and is still
+                // listening for commands: it must not be sent the data blocks
+                return Err(Error::WriteError);
+            }
             for block in blocks.iter() {
                 self.wait_not_busy(Delay::new_write())?;
                 self.write_data(WRITE_MULTIPLE_TOKEN, &block.contents)?;
